@@ -46,7 +46,7 @@ def special_scenarios(ctx):
     reps = 2 if ctx.tier == 'quick' else 12
     todo = [(i, ['names', 'resize', 'symlink-root', 'symlink-root-slash'][i % 4], None) for i in range(reps * 4)]
     todo += [(reps * 4 + 100 + j, kind_, None) for j, kind_ in enumerate(['short-reads', 'replaced'] * (1 if ctx.tier == 'quick' else 4))]
-    todo += [(reps * 4 + 200 + j, kind_, None) for j, kind_ in enumerate(['symlink-root-nonutf8', 'before-repoints', 'killed-run'] * (1 if ctx.tier == 'quick' else 3))]
+    todo += [(reps * 4 + 200 + j, kind_, None) for j, kind_ in enumerate(['symlink-root-nonutf8', 'before-repoints', 'killed-run', 'manifest-write-fault'] * (1 if ctx.tier == 'quick' else 3))]
     todo += [(reps * 4 + j, 'read-fault', (size, k)) for j, (size, k) in enumerate(
         (size, k) for size in ([1000, 20000] if ctx.tier == 'quick' else [1, 1000, 4096, 20000, 70000]) for k in range(1, 7 if size <= 4096 else 12))]
     for i, kind, param in todo:
@@ -111,6 +111,14 @@ def special_scenarios(ctx):
                 cfg_path = link
                 before_cmd = 'ln -sfn %s %s' % (snap2, link)
                 roots_override = [os.path.realpath(snap2)]
+            elif kind == 'manifest-write-fault':
+                # a manifest long enough to be written out while the run is still archiving; one write to it fails (later ones
+                # would succeed): whatever is published has one well-formed line per archived file
+                for k_ in range(4500):
+                    open(os.path.join(it, 'sub', 'n%04d' % k_), 'wb').write(b'%d' % k_)
+                tmp_ = os.path.join(w.root, store.group_name(w.now + 10), '.' + store.backup_name(w.now + 10))
+                shim_env = {'FAULT': 'write@%s/metadata.zst=%s@1' % (tmp_, rng.choice(['ENOSPC', 'EIO'])), 'WATCH': w.root}
+                expect_err = True
             elif kind == 'killed-run':
                 # a complete backup, then a run that is killed before it archives anything
                 store.write_config(w.cfg, 'b', w.root, [{'path': it}], 2, 3)
